@@ -56,7 +56,9 @@ Skel == <<
   <<"param", "(", "a", ",", "...", "b", ")", "\n", "global", "x", "\n", "return", "import", "(", "\"m\"", ")", ".", "k", "(", "a", ")">>,
   <<"global", "x", "\n", "x", "+=", "1", "\n", "x", "++", "\n", "return", "!", "x", "==", "-", "x", "||", "'c'", "<", "\"s\"">>,
   <<"global", "x", "\n", "for", "{", "x", "=", "func", "(", ")", "{", "return", "1", "}", "(", ")", "\n", "if", "x", "{", "break", "}", "}">>,
-  <<"global", "x", "\n", "for", "x", "{", "try", "{", "return", "1", "}", "finally", "{", "x", "=", "2", "}", "}", "\n", "return", "x", "||", "x", "&&", "1">>
+  <<"global", "x", "\n", "for", "x", "{", "try", "{", "return", "1", "}", "finally", "{", "x", "=", "2", "}", "}", "\n", "return", "x", "||", "x", "&&", "1">>,
+  <<"x", ":=", "len", "(", "[", "]", ")", "\n", "y", ",", "len", ":=", "[", "1", ",", "2", "]", "\n", "return", "[", "x", ",", "y", ",", "len", "]">>,
+  <<"global", "x", "\n", "const", "k", "=", "2", "\n", "f", ":=", "func", "(", "k", ")", "{", "return", "k", "+", "x", "}", "\n", "return", "f", "(", "k", ")", "+", "k">>
 >>
 MaxSkel == 34
 \* an edit: t = 0 none, 1 insert token y after position p, 2 delete position p, 3 replace position p by token y,
@@ -84,7 +86,8 @@ Edit2Set == [t : {2, 4, 5}, p : 1..(MaxSkel + 2), y : {1}]
 Frags == <<"x := import(\"m\")", "x := import(\"m\"); undefinedvar", "return import(\"m\")", "z := import(\"bm\"); undefinedvar",
            "return import(\"bm\").k", "a := 1; undefinedvar", "a := 2", "a = 3; return a", "f := func() { return import(\"m2\") }; undefinedvar",
            "return f()", "const c = 1; undefinedvar", "return c", "g := func() { return a }; return g(", "return import(\"m2\")",
-           "for a, b, c in [1] {}", "try { return import(\"m\") } finally { undefinedvar }">>
+           "for a, b, c in [1] {}", "try { return import(\"m\") } finally { undefinedvar }",
+           "global gx; undefinedvar", "return gx", "gx = 1; return gx", "x := len([]); undefinedvar", "y, len := [1, 2]; return [y, len]">>
 
 VARIABLES c, ph
 vars == <<c, ph>>
